@@ -11,6 +11,9 @@ RELS = ["Equality", "Intersects", "Subset"]
 ALTS = [[], ["C"], ["G"], ["C", "G"], ["G", "C"], ["C", "G", "T"], ["T"], [""]]     # [""]: a blank allele column is one (empty) allele
 
 
+MODE_TEXT = {"plain": "the inputs are the library's LocatableByAllele objects", "mixed": "the inputs mix real MafRecords and LocatableByAllele objects"}
+
+
 def rel_test(rel, base, other):
     if rel == "Equality":
         return base == other
@@ -54,6 +57,27 @@ def run_impl(inputs, contigs, by_barcodes, rel, mode="stream"):
                                                     overlap_type=AlleleOverlapType[rel])
         return LocatableByAlleleOverlapIterator(iters, contigs=contigs, by_barcodes=by_barcodes,
                                                 overlap_type=AlleleOverlapType[rel])
+    if mode in ("plain", "mixed"):
+        # the library's own LocatableByAllele objects (calls from another source than a MAF), alone or mixed with real
+        # MafRecords in one iteration
+        import itertools
+        from maflib.locatable import LocatableByAllele
+        rid, srcs = {}, []
+        for inp in inputs:
+            row = []
+            for x in inp:
+                if mode == "mixed" and len(x.alts) == 1 and x.rid % 2 == 0:
+                    obj = c11.RecordOf([[x]], True).inputs[0][0]
+                else:
+                    obj = LocatableByAllele(x.chromosome, x.start, x.end, x.ref, list(x.alts))
+                rid[id(obj)] = x.rid
+                row.append(obj)
+            srcs.append(row)
+        try:
+            groups = [[[rid[id(o)] for o in slot] for slot in g] for g in itertools.islice(make([iter(r) for r in srcs], None), 301)]
+        except Exception as e:  # noqa
+            return None, exc_name(e)
+        return (groups, "RUNAWAY") if len(groups) > 300 else (groups, None)
     return c11.drive(make, inputs, contigs, mode, 300, allele_columns=True)
 
 
@@ -90,15 +114,15 @@ def eval_case(inputs, contigs, by_barcodes, rel, modes=None):
     res = {"where": where, "groups": None, "exc": None, "failures": [], "pos": None, "want": None, "by_mode": {}}
     stored = dict(where, recs=recs_of(inputs))
     pos = pexc = want = None
-    for mode in (c11.MODES if modes is None else modes):
-        if not mode_applies(mode, inputs, contigs):
-            continue
+    for mode in (c11.MODES + ["plain", "mixed"] if modes is None else modes):
+        if not mode_applies(mode, inputs, contigs) or (mode in ("plain", "mixed") and by_barcodes):
+            continue          # (a plain LocatableByAllele has no barcodes to group by)
         groups, exc = run_impl(inputs, contigs, by_barcodes, rel, mode=mode)
         res["by_mode"][mode] = (groups, exc)
         if mode == "stream":
             res["groups"], res["exc"] = groups, exc
         tag = {} if mode == "stream" else {"mode": mode}
-        note = "" if mode == "stream" else " (%s)" % c11.MODE_TEXT[mode]
+        note = "" if mode == "stream" else " (%s)" % MODE_TEXT.get(mode, c11.MODE_TEXT.get(mode))
         if res["failures"] and mode != "stream" and not all("mode" in f for f in res["failures"]):
             continue                                   # the plain use fails already
         if exc:
@@ -172,7 +196,35 @@ def run(ctx):
             out.sample(dict(where, groups=groups))
     two_pass_cases(ctx, out)
     interleaved_cases(ctx, out)
+    long_gap_cases(ctx, out)
     return out
+
+
+def eval_long_gap(n, after, rel):
+    """A long run of loci covered only by the second input (n of them), before (`after`=False: the only first-input
+    record follows the run) or after the last record of the first input: the run is passed over, whatever its length."""
+    from maflib.overlap_iter import AlleleOverlapType, LocatableByAlleleOverlapIterator
+    first = c11.Rec("T", "N", "1" if after else "2", 1, 2, 0, "A", ("C",))
+    other = [c11.Rec("T", "N", "1", 100 + 10 * k, 101 + 10 * k, k + 1, "A", ("C",)) for k in range(n)]
+    where = {"kind": "long-gap", "n": n, "after": after, "relation": rel}
+    try:
+        groups = [[[x.rid for x in slot] for slot in g] for g in
+                  LocatableByAlleleOverlapIterator([iter([first]), iter(other)], contigs=["1", "2"], by_barcodes=False, overlap_type=AlleleOverlapType[rel])]
+    except Exception as e:  # noqa
+        return [dict(where, what="allele-aware iteration failed with %s on a run of %d loci that only the second input covers (%s the first input's record)" % (
+            exc_name(e), n, "after" if after else "before"))]
+    if groups != [[[0], []]]:
+        return [dict(where, what="a run of %d loci that only the second input covers: returned %s, expected the single group of the first input's record" % (n, str(groups)[:120]))]
+    return []
+
+
+def long_gap_cases(ctx, out):
+    for after in (False, True):
+        for rel in RELS[:1] if ctx.tier == "quick" else RELS:
+            out.evaluations += 1
+            out.failures += eval_long_gap(1500, after, rel)
+            out.distribution["run of 1500 loci without a first-input record"] += 1
+            out.nontrivial.add(("long-gap", after, rel))
 
 
 def eval_interleaved(recs_a, recs_b, contigs, by_barcodes, rel, take):
@@ -298,6 +350,13 @@ def two_pass_cases(ctx, out):
 
 
 def replay_case(ctx, failure):
+    if failure.get("kind") == "long-gap":
+        fails = eval_long_gap(int(failure["n"]), bool(failure["after"]), failure["relation"])
+        print("replay C12: first input = one record; second input = %d records on consecutive loci %s it; LocatableByAlleleOverlapIterator(%s) iterated to the end" % (
+            int(failure["n"]), "after" if failure["after"] else "before", failure["relation"]))
+        for x in fails:
+            print("  oracle: %s" % x["what"])
+        return fails
     """Re-evaluate the stored inputs on the current implementation; the failures they produce now ([] = property holds)."""
     if failure.get("kind") == "interleaved" and "recs_b" in failure:
         e = eval_interleaved(failure["recs"], failure["recs_b"], failure.get("contigs"), failure["by_barcodes"], failure["relation"], failure.get("take", 1))
